@@ -96,7 +96,8 @@ def run(ctx, tier):
     regex_rule(ctx)
     from .rules_c19 import tokeniser_premise
     tokeniser_premise(ctx)
-    from .rules_c08 import frame_premise
+    from .rules_c08 import frame_premise, state_code_premise
     frame_premise(ctx)
+    state_code_premise(ctx)
     ctx.assume('matched equal-length cycles, E-only or firmware, not mixed (the property quantifier); travel moves that '
                'retract while moving are outside it')
